@@ -702,3 +702,21 @@ func genAmount(t *rapid.T) *big.Int { return gen.Amount().Draw(t, "amount") }
 type bigInt = big.Int
 
 func newInt(v int64) *big.Int { return big.NewInt(v) }
+
+// ScriptMeta folds the program's set_tx_meta / set_account_meta statements in order: the metadata a successful run
+// of the whole program attaches to the transaction and to accounts (values as the machine runtime renders them).
+func (p *Program) ScriptMeta() (tx map[string]string, accounts map[string]map[string]string) {
+	tx, accounts = map[string]string{}, map[string]map[string]string{}
+	for _, st := range p.Stmts {
+		switch st.Kind {
+		case StSetTxMeta:
+			tx[st.Key] = st.ValString
+		case StSetAccountMeta:
+			if accounts[st.Acc.Addr] == nil {
+				accounts[st.Acc.Addr] = map[string]string{}
+			}
+			accounts[st.Acc.Addr][st.Key] = st.ValString
+		}
+	}
+	return tx, accounts
+}
